@@ -3,6 +3,7 @@ import Proofs.Walk
 import Proofs.Visits
 import Proofs.NoIdleGlobal
 import Proofs.NoIdleBack
+import Proofs.TeamFit
 import Proofs.WFCheck
 /-!
 C08 — no eligible working time is left idle.
@@ -175,7 +176,16 @@ theorem no_idle_final_alap (e : Env) (wf : WF e) (tr : Tree e) (t r : Nat) (hel 
         e.onShift r i = true → e.leaveMark r i = false →
         ((runScenario e).led.get r i).usage ≠ [] ∨ Exhausted e (runScenario e) t r i :=
   (runScenario_doneIdleB e wf tr t r hel
-    (runScenario_scheduled_done e t ⟨hel.el.leaf, hel.el.effort, hel.el.nomile⟩ hs) hf).2
+    (runScenario_scheduled_done e t ⟨hel.el.leaf, hel.el.effort, hel.el.nomile⟩ hs) hf).2.2
+
+/-- **an ALAP task ends no later than its deadline** (whole projects): the reported end of every scheduled backward effort
+    task with a single selected leaf resource is at or before `deadlineG` — the end it carried when the loop started (explicit
+    or inherited), else the earliest `start − gap` of its successors and the project end in the FINAL schedule -/
+theorem alap_ends_by_deadline (e : Env) (wf : WF e) (tr : Tree e) (t r : Nat) (hel : EligB e t r)
+    (hs : ((runScenario e).tst t).scheduled = true) (hf : ((runScenario e).tst t).forward = false) :
+    ∃ v, ((runScenario e).tst t).stop = some v ∧ v ≤ deadlineG e (loopStart e) (runScenario e) t :=
+  (runScenario_doneIdleB e wf tr t r hel
+    (runScenario_scheduled_done e t ⟨hel.el.leaf, hel.el.effort, hel.el.nomile⟩ hs) hf).2.1
 
 /-- … and for an unlimited resource and task the slot is booked -/
 theorem no_idle_final_alap_unlimited (e : Env) (wf : WF e) (tr : Tree e) (t r : Nat) (hel : EligB e t r)
@@ -196,6 +206,24 @@ theorem no_idle_final_alap_unlimited (e : Env) (wf : WF e) (tr : Tree e) (t r : 
 theorem backward_visits_are_consecutive (e : Env) (t : Nat) (fuel : Nat) (σ : St) (w : Walk) (k : Nat)
     (hk : k < (walkVisitsB e t fuel σ w).length) : ((walkVisitsB e t fuel σ w)[k]).2.cur = w.cur - k :=
   walkVisitsB_consecutive e t fuel σ w k hk
+
+/-! ### teams -/
+
+/-- **C08 for unlimited forward teams** (corollary of `C07.team_earliest_fit`): between the bound slot and any slot the team is
+    booked in, every slot in which ALL members are on shift and not on leave carries a booking on some member — the team's own
+    (then on every member), or another task's: the team never waits while all of its resources could work for it -/
+theorem no_idle_final_team (e : Env) (wf : WF e) (tr : Tree e) (t : Nat) (sel : List Nat) (hel : TeamU e t sel)
+    (hs : ((runScenario e).tst t).scheduled = true) (hf : ((runScenario e).tst t).forward = true) :
+    ∀ L m0, m0 ∈ sel → usageOf ((runScenario e).led.get m0 L).usage t ≠ none →
+      ∀ i, boundSlot e (runScenario e) t ≤ i → i ≤ L → (∀ m ∈ sel, e.onShift m i = true ∧ e.leaveMark m i = false) →
+        ∃ m ∈ sel, ((runScenario e).led.get m i).usage ≠ [] := by
+  obtain ⟨order, rest, _, hT⟩ := runScenario_placementT e wf tr
+  obtain ⟨post, pre, _, hfit⟩ := hT t sel hel
+    (runScenario_scheduled_done e t ⟨hel.el.leaf, hel.el.effort, hel.el.nomile⟩ hs) hf
+  intro L m0 hm0 hL i hb hi hall
+  rcases hfit L m0 hm0 hL i hb hi hall with h1 | ⟨m, hm, t', _, h1⟩
+  · exact ⟨m0, hm0, usage_ne_nil_of_usageOf (h1 m0 hm0)⟩
+  · exact ⟨m, hm, usage_ne_nil_of_usageOf h1⟩
 
 /-- what makes "not available" mean "booked": in every state a scenario run ends in, a slot without entries still has room
     (a start-offset reservation or a team levelling never fills a slot by itself) and a marked slot carries an entry -/
